@@ -1269,6 +1269,65 @@ module RangeM =
          let (s2, e2) = s0 in
          (&&) ((&&) (bound_eqb s1 s2) (bound_eqb e1 e2)) (range_eqb a' b'))
 
+  type token =
+  | TStar
+  | TVer of ver
+  | TLt of ver
+  | TLe of ver
+  | TGt of ver
+  | TGe of ver
+
+  (** val token_rect :
+      'a1 -> (ver -> 'a1) -> (ver -> 'a1) -> (ver -> 'a1) -> (ver -> 'a1) ->
+      (ver -> 'a1) -> token -> 'a1 **)
+
+  let token_rect f f0 f1 f2 f3 f4 = function
+  | TStar -> f
+  | TVer v -> f0 v
+  | TLt v -> f1 v
+  | TLe v -> f2 v
+  | TGt v -> f3 v
+  | TGe v -> f4 v
+
+  (** val token_rec :
+      'a1 -> (ver -> 'a1) -> (ver -> 'a1) -> (ver -> 'a1) -> (ver -> 'a1) ->
+      (ver -> 'a1) -> token -> 'a1 **)
+
+  let token_rec f f0 f1 f2 f3 f4 = function
+  | TStar -> f
+  | TVer v -> f0 v
+  | TLt v -> f1 v
+  | TLe v -> f2 v
+  | TGt v -> f3 v
+  | TGe v -> f4 v
+
+  (** val seg_tokens : seg -> token list **)
+
+  let seg_tokens = function
+  | (b0, b1) ->
+    (match b0 with
+     | Incl v ->
+       (match b1 with
+        | Incl b ->
+          if veqb v b then (TVer v) :: [] else (TGe v) :: ((TLe b) :: [])
+        | Excl b -> (TGe v) :: ((TLt b) :: [])
+        | Unb -> (TGe v) :: [])
+     | Excl v ->
+       (match b1 with
+        | Incl b -> (TGt v) :: ((TLe b) :: [])
+        | Excl b -> (TGt v) :: ((TLt b) :: [])
+        | Unb -> (TGt v) :: [])
+     | Unb ->
+       (match b1 with
+        | Incl v -> (TLe v) :: []
+        | Excl v -> (TLt v) :: []
+        | Unb -> TStar :: []))
+
+  (** val display_tokens : range -> token list list **)
+
+  let display_tokens r =
+    map seg_tokens r
+
   (** val display_seg : (ver -> text) -> seg -> text **)
 
   let display_seg show = function
@@ -1367,6 +1426,53 @@ module RangeM =
         false)), (String ((Ascii (false, false, true, true, true, true, true,
         false)), (String ((Ascii (false, false, false, false, false, true,
         false, false)), EmptyString))))))) (map (display_seg show) r)
+
+  (** val render_token : (ver -> text) -> token -> text **)
+
+  let render_token show = function
+  | TStar ->
+    txt (String ((Ascii (false, true, false, true, false, true, false,
+      false)), EmptyString))
+  | TVer v -> show v
+  | TLt v ->
+    app
+      (txt (String ((Ascii (false, false, true, true, true, true, false,
+        false)), EmptyString))) (show v)
+  | TLe v ->
+    app
+      (txt (String ((Ascii (false, false, true, true, true, true, false,
+        false)), (String ((Ascii (true, false, true, true, true, true, false,
+        false)), EmptyString))))) (show v)
+  | TGt v ->
+    app
+      (txt (String ((Ascii (false, true, true, true, true, true, false,
+        false)), EmptyString))) (show v)
+  | TGe v ->
+    app
+      (txt (String ((Ascii (false, true, true, true, true, true, false,
+        false)), (String ((Ascii (true, false, true, true, true, true, false,
+        false)), EmptyString))))) (show v)
+
+  (** val render : (ver -> text) -> token list list -> text **)
+
+  let render show tl = match tl with
+  | [] ->
+    txt (String ((Ascii (false, true, false, false, false, true, true,
+      true)), (String ((Ascii (false, false, false, true, false, false,
+      false, true)), (String ((Ascii (true, false, true, false, false, false,
+      false, true)), EmptyString))))))
+  | _ :: _ ->
+    join
+      (txt (String ((Ascii (false, false, false, false, false, true, false,
+        false)), (String ((Ascii (false, false, true, true, true, true, true,
+        false)), (String ((Ascii (false, false, false, false, false, true,
+        false, false)), EmptyString)))))))
+      (map (fun conj ->
+        join
+          (txt (String ((Ascii (false, false, true, true, false, true, false,
+            false)), (String ((Ascii (false, false, false, false, false,
+            true, false, false)), EmptyString)))))
+          (map (render_token show) conj)) tl)
  end
 
 module ZV =
